@@ -51,13 +51,259 @@ OPS = ["enq1", "enq3", "finish", "finish_err", "cancel", "recv", "cancel_recv", 
 
 def programs(tier: str):
     yield {"L": BOUNDS[tier]["L"]}
+    # explicit-state searches run to a fixpoint: operation sequences of EVERY length in which the
+    # backlog (accepted, not yet received) never exceeds B elements
+    for backlog in (3, 4) if tier == "quick" else (3, 4, 6, 9):
+        for exc_elements in (False, True):
+            if backlog > 4 and exc_elements:
+                continue
+            yield {"fix": True, "backlog": backlog, "exc_elements": exc_elements, "deadline_s": 3000, "validate": "first" if tier == "quick" else "all"}
+    yield from _deep_programs(tier)
+
+
+def _deep_programs(tier: str):
+    yield {"deep": True, "backlog": 40, "exc_elements": False, "deadline_s": 3000, "reps": [5, 17] if tier == "quick" else [5, 17, 40], "suffix": 3 if tier == "quick" else 4}
 
 
 def explore_config(tier: str, program) -> dict:
+    if program.get("fix") or program.get("deep"):
+        return {"split_depth": 0}
     return {"split_depth": 3}
 
 
+class QSys:
+    """One queue + single consumer + list reference, driven operation by operation with the oracle
+    evaluated online (hv.xstate.fixpoint interface)."""
+
+    def __init__(self, program) -> None:
+        self.program = program
+        self.B = program["backlog"]
+        self.loop = VLoop()
+        self.loop.open()
+        self.q: AsyncQueue = AsyncQueue()
+        self.pending: list = []  # accepted, not yet received (reference)
+        self.viols: list[dict] = []
+        self.nxt = 0
+        self.reason: str | None = None
+        self.err = QErr("boom")
+        self.recv_task: asyncio.Task | None = None
+        self.recv_cancel_requested = False
+        self.ends = 0
+        self.hist: list = []
+
+    def close(self) -> None:
+        self.loop.shutdown()
+
+    async def _receive(self):
+        return await self.q.__anext__()
+
+    def _value(self):
+        v = (self.nxt % 4) // 2  # 0, 0, 1, 1, 0, 0 ... : neighbours compare equal pairwise, finitely many values
+        self.nxt += 1
+        return v
+
+    def _harvest(self) -> list:
+        out: list = []
+        t = self.recv_task
+        if t is None or not t.done():
+            return out
+        self.recv_task = None
+        was_req, self.recv_cancel_requested = self.recv_cancel_requested, False
+        if t.cancelled():
+            if was_req:
+                out.append("cancelled-by-driver")
+                return out
+            got: tuple = ("end", "CancelledError", False)
+        else:
+            exc = t.exception()
+            got = ("el", t.result()) if exc is None else ("end", type(exc).__name__, exc is self.err)
+        out.append(list(got[:2]))
+        if got[0] == "el":
+            if not self.pending:
+                self.viols.append(viol("delivery", "duplicated", "nothing left to deliver", repr(got[1])[:60], history=list(self.hist)))
+            else:
+                exp = self.pending.pop(0)
+                if not (type(exp) is type(got[1]) and exp == got[1]):
+                    kind = "lost" if any(type(p) is type(got[1]) and p == got[1] for p in self.pending) else "reordered"
+                    self.viols.append(viol("delivery", kind, repr(exp)[:60], repr(got[1])[:60], history=list(self.hist)))
+        else:
+            self.ends = min(2, self.ends + 1)
+            if self.pending:
+                self.viols.append(viol("delivery", "lost", f"{len(self.pending)} buffered element(s) before the end", list(got[:2]), history=list(self.hist)))
+            elif self.reason is None:
+                self.viols.append(viol("finish-reason", "end-before-finish", "an element or suspension", list(got[:2]), history=list(self.hist)))
+            elif got[1] != self.reason or (self.reason == "QErr" and not got[2]):
+                self.viols.append(viol("finish-reason", "wrong", self.reason, list(got[:2]), history=list(self.hist)))
+        return out
+
+    def enabled(self):
+        ops = []
+        room = self.B - len(self.pending)
+        if room >= 1 or self.reason is not None:
+            ops.append("enq1")
+        if room >= 3 or self.reason is not None:
+            ops.append("enq3")
+        if self.program.get("exc_elements") and (room >= 1 or self.reason is not None):
+            ops.append("enq_exc")
+        ops += ["finish", "finish_err", "cancel"]
+        if self.recv_task is None:
+            ops.append("recv")
+        elif not self.recv_task.done() and not self.recv_cancel_requested:
+            ops.append("cancel_recv")
+        if self.loop._ready:
+            ops += ["run", "tick"]
+        return ops
+
+    def apply(self, op):  # noqa: C901, PLR0912
+        self.hist.append(op)
+        hist = list(self.hist)
+        viols = self.viols
+        obs: list = [op]
+        if op in ("enq1", "enq3", "enq_exc"):
+            if op == "enq_exc":
+                els: list = [ElementErr(self._value())]
+            else:
+                els = [self._value() for _ in range(1 if op == "enq1" else 3)]
+            try:
+                self.q.enqueue(*els)
+                if self.reason is not None:
+                    viols.append(viol("enqueue-after-finish", "accepted", "RuntimeError", "accepted", history=hist))
+                self.pending.extend(els)
+                obs.append("accepted")
+            except RuntimeError:
+                if self.reason is None:
+                    viols.append(viol("enqueue", "rejected-before-finish", "accepted", "RuntimeError", history=hist))
+                self.nxt -= len(els)
+                obs.append("rejected")
+            except Exception as exc:  # noqa: BLE001
+                viols.append(viol("enqueue", f"raises-{type(exc).__name__}", "accepted" if self.reason is None else "RuntimeError", repr(exc)[:120], history=hist))
+        elif op in ("finish", "finish_err", "cancel"):
+            try:
+                if op == "finish":
+                    self.q.finish()
+                elif op == "finish_err":
+                    self.q.finish(self.err)
+                else:
+                    self.q.cancel()
+            except Exception as exc:  # noqa: BLE001
+                viols.append(viol("finish", f"{op}-raises-{type(exc).__name__}", "no error", repr(exc)[:120], history=hist))
+            self.reason = self.reason or {"finish": "StopAsyncIteration", "finish_err": "QErr", "cancel": "CancelledError"}[op]
+        elif op == "recv":
+            self.recv_task = self.loop.create_task(self._receive())
+        elif op == "cancel_recv":
+            assert self.recv_task is not None
+            self.recv_task.cancel()
+            self.recv_cancel_requested = True
+        elif op == "tick":
+            self.loop.run_iteration()
+            obs += self._harvest()
+        elif op == "run":
+            self.loop.run_ready()
+            obs += self._harvest()
+        return obs
+
+    def drain(self) -> None:
+        """from the current state: let the loop run, finish if not finished, receive until two end
+        markers: everything accepted is delivered in order, then the reason, every time"""
+        self.hist.append("<drain>")
+        self.loop.run_ready()
+        self._harvest()
+        if self.reason is None:
+            self.q.finish()
+            self.reason = "StopAsyncIteration"
+        self.loop.run_ready()
+        self._harvest()
+        guard = 0
+        while (self.ends < 2 or self.pending) and guard < self.B + 8 and not self.viols:
+            guard += 1
+            if self.recv_task is None:
+                self.recv_task = self.loop.create_task(self._receive())
+            self.loop.run_ready()
+            self._harvest()
+            if self.recv_task is not None:
+                self.viols.append(viol("termination", "receive-hangs-after-finish", "done", "pending", history=list(self.hist)))
+                return
+        if not self.viols and (self.pending or self.ends < 2):
+            self.viols.append(viol("finish-reason", "not-sticky", ">= 2 end markers and nothing left", [self.ends, len(self.pending)], history=list(self.hist)))
+
+    def canon(self):
+        from hv import xstate
+
+        import haiway.utils.queue as mod
+
+        c = xstate.Canon({})
+        return (
+            c(self.q),
+            c(self.recv_task),
+            xstate.loop_state(self.loop, c),
+            xstate.module_state(mod, c),
+            tuple(repr(p) for p in self.pending),
+            self.reason,
+            self.nxt % 4,
+            self.recv_cancel_requested,
+            self.ends,
+        )
+
+
+def execute_fix(program) -> Result:
+    from hv import xstate
+
+    def at_state(hist: tuple) -> list:
+        s = QSys(program)
+        try:
+            for h in hist:
+                s.apply(h)
+            if s.viols:
+                return []
+            s.drain()
+            return list(s.viols)
+        finally:
+            s.close()
+
+    r = xstate.fixpoint(lambda: QSys(program), max_states=program.get("max_states", 150000), validate_merges=program.get("validate", "all"), at_state=at_state)
+    obs = {k: v for k, v in r.items() if k != "violations"}
+    return Result("fix/" + ("capped" if r["capped"] else "fixpoint"), r["states"] > 10, r["violations"], obs, steps=r["transitions"] + r["states"], capped=r["capped"], xstates=r["states"], xinfo=obs)
+
+
+def execute_deep(program) -> Result:
+    """warm-up cycles (enqueue / receive / run patterns) repeated n times, then every continuation
+    of <= `suffix` operations, each followed by a drain"""
+    from hv import xstate
+
+    class Deep(QSys):
+        drained = False
+
+        def enabled(self):
+            if self.drained:
+                return []
+            return super().enabled() + ["<drain>"]  # terminal pseudo-operation
+
+        def apply(self, op):
+            if op == "<drain>":
+                self.drained = True
+                self.drain()
+                return ["<drain>"]
+            return super().apply(op)
+
+    cycles = [
+        ["enq1", "recv", "run"],
+        ["recv", "enq1", "run"],
+        ["enq3", "recv", "run", "recv", "run", "recv", "run"],
+        ["enq1", "enq1", "recv", "run", "recv", "run"],
+        ["recv", "run", "cancel_recv", "run", "enq1", "recv", "run"],
+        ["enq1", "recv", "tick"],
+        ["recv", "tick", "enq1", "tick"],
+    ]
+    r = xstate.deep_probe(lambda: Deep(program), cycles=cycles, reps=tuple(program.get("reps", (5, 17))), suffix=program.get("suffix", 3))
+    obs = {k: v for k, v in r.items() if k != "violations"}
+    return Result("deep", True, r["violations"], obs, steps=r["operations"])
+
+
 def execute(program, ch: Chooser) -> Result:  # noqa: C901, PLR0912, PLR0915
+    if program.get("deep"):
+        return execute_deep(program)
+    if program.get("fix"):
+        return execute_fix(program)
     L = program["L"]
     loop = VLoop()
     loop.open()
